@@ -7,7 +7,7 @@
    The remaining unwinding code is covered by exhaustive single-fault ENUMERATION (harness/c16_harness.c) — that is
    exploration, not a theorem; its traces are judged by the extracted `trace_ok`, proved sound and complete below. *)
 From Coq Require Import List NArith Bool String.
-From Wbxml Require Import Model.Alloc Model.AllocClasses Gen.AllocSites Proofs.AllocProofs.
+From Wbxml Require Import Model.Alloc Model.AllocClasses Gen.AllocSites Proofs.AllocProofs Proofs.AllocInduction.
 Import ListNotations.
 Local Open Scope N_scope.
 
@@ -64,6 +64,17 @@ Theorem C16_list_destroy_upto3_partial :
    clean (run l [1; 2; 3; 4; 5; 6; 7; 8; 9]) /\ h_live (run l [1; 2; 3; 4; 5; 6; 7; 8; 9]) = []).
 Proof. exact list_destroy_upto3. Qed.
 Print Assumptions C16_list_destroy_upto3_partial.
+
+(* ALL lengths, ARBITRARY heap: a list of buffers whose blocks are distinct and live is released completely, once,
+   and nothing else is touched *)
+Theorem C16_list_destroy_all : forall (l : wlist buffer) h,
+  clean h ->
+  NoDup (elts_release_order (l_elts l) ++ [l_blk l]) -> incl (elts_release_order (l_elts l) ++ [l_blk l]) (h_live h) ->
+  clean (list_destroy buf_item_destroy h (Some l)) /\
+  forall x, In x (h_live (list_destroy buf_item_destroy h (Some l))) <->
+            In x (h_live h) /\ ~ In x (elts_release_order (l_elts l) ++ [l_blk l]).
+Proof. exact list_destroy_all. Qed.
+Print Assumptions C16_list_destroy_all.
 
 (* ---- tags, attribute names, attributes ---- *)
 Theorem C16_named_create_literal : creates named_blocks [] (fun o => named_create_literal (heap0 o)).
@@ -129,6 +140,24 @@ Theorem C16_parse_element_attrs_fixed_upto3_partial : forall fails n, (n <= 3)%n
 Proof. exact parse_element_attrs_fixed_upto3. Qed.
 Print Assumptions C16_parse_element_attrs_fixed_upto3_partial.
 
+(* ANY number of attributes, ARBITRARY heap (oracle included: it is a field of the heap), by induction: no violation;
+   on error nothing of the element / table / attributes remains and the rest of the heap is untouched; on success the
+   element, the table and the n new attributes are live and distinct and the rest of the heap is untouched *)
+Theorem C16_parse_element_attrs_fixed_all : forall n h element table entries,
+  clean h -> fresh h -> (table = None -> entries = []) ->
+  NoDup ((element :: []) ++ entries ++ otable table) -> incl ((element :: []) ++ entries ++ otable table) (h_live h) ->
+  let '(h', r, st) := attrs_loop true n h element table entries in
+  clean h' /\
+  match st with
+  | ERR => r = None /\ forall x, In x (h_live h') <-> outside h ((element :: []) ++ entries ++ otable table) x
+  | OK => let owned' := (element :: []) ++ match r with Some (t, es) => es ++ [t] | None => [] end in
+          NoDup owned' /\ incl owned' (h_live h') /\
+          (match r with Some (t, es) => List.length es = (List.length entries + n)%nat | None => n = 0%nat /\ table = None end) /\
+          forall x, outside h' owned' x <-> outside h ((element :: []) ++ entries ++ otable table) x
+  end.
+Proof. exact parse_element_attrs_fixed_all. Qed.
+Print Assumptions C16_parse_element_attrs_fixed_all.
+
 (* ---- parse_attr_start, LITERAL branch: OK returned after a failed create, the NULL name is then dereferenced ---- *)
 Theorem C16_attr_start_literal_refuted :
   exists k, let '(h, nm, st) := attr_start_literal false (heap_buf (single k)) a_buffer in
@@ -140,6 +169,41 @@ Theorem C16_attr_start_literal_fixed : forall fails,
   clean h /\ h_live h = [] /\ (st = ERR -> exists k, nth_error fails k = Some true).
 Proof. exact attr_start_literal_fixed_ok. Qed.
 Print Assumptions C16_attr_start_literal_fixed.
+
+(* ---- the encoder's string-table elements: who owns the buffer (defects D23 and D22, repaired in /repo a4c55c1, dabbfe5) ---- *)
+(* old wbxml_encode_tag_literal / wbxml_encode_attr_start_literal: refused append -> name buffer freed twice; and on a
+   reset encoder of the pinned code (NULL list) the same without any allocation failure *)
+Theorem C16_encode_literal_refuted :
+  (exists k, h_bad (fst (fst (encode_literal true (heap_tbl (single k)) (Some a_table) false))) <> []) /\
+  h_bad (fst (fst (encode_literal true (heap_tbl nofail) None false))) <> [].
+Proof. exact encode_literal_refuted. Qed.
+Print Assumptions C16_encode_literal_refuted.
+Theorem C16_encode_literal_fixed : forall (fails : list bool) (already tbl_present : bool),
+  let tbl := (if tbl_present then Some a_table else None) : option (wlist selt) in
+  let '(h, tbl', st) := encode_literal false (heap_tbl fails) tbl already in
+  clean h /\ all_live h [1] = true /\
+  match st with
+  | ERR => leaked h [1] = [] /\ tbl' = tbl
+  | OK => match tbl' with Some l => leaked h (list_blocks selt_blocks l) = [] | None => False end
+  end.
+Proof. exact encode_literal_fixed_ok. Qed.
+Print Assumptions C16_encode_literal_fixed.
+(* old wbxml_fill_header: the public-id string already in the table (NO allocation failure) -> `pid` freed twice *)
+Theorem C16_fill_header_pid_refuted :
+  h_bad (fst (fst (fill_header_pid true (heap_tbl nofail) (Some a_table) true))) <> [] /\
+  (exists k, h_bad (fst (fst (fill_header_pid true (heap_tbl (single k)) (Some a_table) false))) <> []).
+Proof. exact fill_header_pid_refuted. Qed.
+Print Assumptions C16_fill_header_pid_refuted.
+Theorem C16_fill_header_pid_fixed : forall (fails : list bool) (already tbl_present : bool),
+  let tbl := (if tbl_present then Some a_table else None) : option (wlist selt) in
+  let '(h, tbl', st) := fill_header_pid false (heap_tbl fails) tbl already in
+  clean h /\ all_live h [1] = true /\
+  match st with
+  | ERR => leaked h [1] = [] /\ tbl' = tbl
+  | OK => match tbl' with Some l => leaked h (list_blocks selt_blocks l) = [] | None => False end
+  end.
+Proof. exact fill_header_pid_fixed_ok. Qed.
+Print Assumptions C16_fill_header_pid_fixed.
 
 (* ---- encoder: output buffer cannot be created (pinned code destroyed the encoder twice; repaired in /repo ab95676) ---- *)
 Theorem C16_encoder_output_failure_refuted : exists k, h_bad (fst (encoder_run true (heap0 (single k)))) <> [].
